@@ -12,6 +12,7 @@ CHECKS = {
             dict(pkg="server", harness="VfC05_isNewMaster", bounds="all 2^256 (candidate, existing) id pairs; no loops"),
             dict(pkg="server", harness="VfC05_runElection", reach=["end", "accepted", "zero-id", "not-single-primary", "unknown-session"],
                  bounds="session table {A,B} each present/absent with arbitrary parameters and last id; arbitrary election state; announcing session any string; id any 128-bit value"),
+            dict(pkg="server", harness="VfC05_runElection3", quick=dict(skip=True), reach=["end", "accepted", "zero-id", "not-single-primary", "unknown-session"], bounds="as runElection with a session table {A,B,C}"),
         ],
         assumptions=[],
         level_text="Bounded symbolic execution of the real election code: every 128-bit id pair / every state of the bounded session table is covered by SMT queries, not sampled.",
@@ -24,7 +25,8 @@ CHECKS["C04"] = dict(
                bounds="session table {A,B} arbitrary; election state arbitrary; calling session any string; batch of 1-2 next-hop ADDs each with nil or arbitrary 128-bit election id"),
           dict(pkg="server", harness="VfC04_history2", reach=["end"], thorough=dict(skip=True),
                bounds="histories from the initial state: 2 election announcements by sessions A/B in any order with arbitrary non-zero 128-bit ids (through runElection), then one operation from either session stamped with an arbitrary id; the primary is computed by the harness with true 128-bit ordering"),
-          dict(pkg="server", harness="VfC04_history3", reach=["end"], quick=dict(skip=True), bounds="as history2 with 3 announcements")],
+          dict(pkg="server", harness="VfC04_history3", reach=["end"], quick=dict(skip=True), bounds="as history2 with 3 announcements"),
+          dict(pkg="server", harness="VfC04_doModify3", load=["server"], quick=dict(skip=True), bounds="as doModify with a session table {A,B,C} and batches of 1-3 operations")],
     assumptions=["RIB effect observed through next-hop ADD operations in the default network instance (the RIB's own behaviour is C01's)"],
     level_text="Bounded symbolic execution of doModify/modifyEntry/checkElectionForModify from an arbitrary session table and election state: for every id triple (operation, session, server) the solver decides whether the RIB was reached.",
     level_note="Trusted: go/ssa, gosym, z3, rib models (candidateRIB/MergeStructInto, validated by TestVfModelAgreement). Interleavings finer than one message are C11's.",
